@@ -138,8 +138,8 @@ def register_lazy_caches(index: Index):
                         and isinstance(t.left, ast.Attribute) and isinstance(t.left.value, ast.Name) and t.left.value.id == "self"):
                     continue
                 x = t.left.attr
-                if x in ATTR or x in PRIMARY or x in CACHE_PARTS or not x.startswith("_"):
-                    continue
+                if x in PRIMARY or x in CACHE_PARTS or not x.startswith("_"):
+                    continue        # (attributes the tables know as scratch may become lazily filled caches)
                 stores = [m for b in n.body for m in ast.walk(b) if isinstance(m, ast.Assign)
                           and any(isinstance(tt, ast.Attribute) and tt.attr == x or (isinstance(tt, ast.Tuple) and any(
                               isinstance(e, ast.Attribute) and e.attr == x for e in tt.elts)) for tt in m.targets)]
